@@ -104,12 +104,12 @@ def cases(tier, seed, args):
             sc = scenario(rng, ml.KINDS[i % 7], tier)
             out.append(dict(t='model', **sc))
     if prop == 'inlinepa':
-        for (K, T) in ([(2, 1), (2, 2)] if q else [(2, 1), (2, 2), (3, 1)]):
+        for (K, T) in ([(2, 1), (2, 2), (3, 1)] if q else [(2, 1), (2, 2), (3, 1), (3, 2)]):
             n = 0
             for ms in itertools.product(range(3), repeat=K * T):
                 for me in itertools.product(range(3), repeat=K * T):
                     n += 1
-                    if (K, T) != (2, 1) and n % (9 if q else 2):
+                    if (K, T) != (2, 1) and n % ({(2, 2): 9, (3, 1): 7, (3, 2): 5003}[K, T] if q else {(2, 2): 2, (3, 1): 2, (3, 2): 1009}[K, T]):
                         continue
                     out.append(dict(t='inlinepa', K=K, T=T, ms=list(ms), me=list(me), w=[1 + (n + k) % 3 for k in range(K)],
                                     F=1 + n % 2))
